@@ -169,6 +169,16 @@ check(
     "DESIGN.md section 3 / C16",
 )
 
+check(
+    "C19",
+    "property-based testing: differential (markup mode vs cleaned-text mode) on generated marked-up scenario documents + well-foundedness predicate for every reference citation",
+    "Generated-input search (exploration): scenario documents rendered as markup (so that references occur) and "
+    "marked-up grammar documents; non-reference citations must be identical in both modes and every reference must "
+    "have valid offsets, a valid name found at its span, and an earlier full case citation carrying that name.",
+    "clean_text trusted (C20); DISALLOWED_NAMES read as data; the validity rule itself re-implemented.",
+    "DESIGN.md section 3 / C19",
+)
+
 
 def build():
     all_ids = [f"C{i:02d}" for i in range(1, 21)]
